@@ -136,6 +136,8 @@ async def scenario(cap, ws, errs, acts, drains, mode, trace=None, stats=None):
         for i in range(len(tasks)):
             if not tasks[i].done():
                 raise Bad(f'task {i} never got out of acquire although every holder has exited')
+        if sem.value > sem.max:
+            raise Bad(f'capacity over-credited: value={sem.value} of max={sem.max} after every task exited')
         if sem.value != sem.max:
             raise Bad(f'capacity not returned: value={sem.value} of max={sem.max} after every task exited')
         probe = asyncio.ensure_future(sem.acquire(cap))
@@ -230,7 +232,7 @@ def _kinds(trace):
 
 def classify(trace, why):
     kinds = _kinds(trace)
-    if why.startswith('over-grant'):
+    if why.startswith('over-grant') or why.startswith('capacity over-credited'):
         return 'weighted-semaphore-over-grant'
     if 'queued' in kinds:
         return 'cancelled-queued-waiter-later-granted'
